@@ -77,6 +77,8 @@ def all_callables(term):
             out.add(("pred" if nm.startswith("p_") else "fn", nm))
         elif n[0] == "optf":
             out.add(("factory", n[1]))
+        elif n[0] == "optdom" and n[3][0] == "pred":
+            out.add(("pred", n[3][1]))
         elif n[0] == "computation":
             for e in n[2]:
                 out.add(("effect", e))
